@@ -221,25 +221,40 @@ func (q *Req) Outcome() string {
 	return sb.String()
 }
 
-// NormaliseDevPage cuts the stack trace of Recovery's development-mode page below the frame of
-// (*World).Serve: what lies underneath is the simulator's own call chain, which differs between
-// a scheduler task and a solo caller and says nothing about the request.
+// NormaliseDevPage reduces the stack trace of Recovery's development-mode page to the frames of
+// the application (the simulated handlers): the simulator's own call chain underneath Serve
+// differs between a scheduler task and a solo caller, and the framework's frames in between
+// depend on which internal path served the request (a cache hit and a miss print different
+// lines), which is no business of the request's observable outcome. What remains still ties
+// the page to the request that panicked: its message and its handlers' frames.
 func NormaliseDevPage(b string) string {
 	if !strings.Contains(b, "<title>PANIC:") {
 		return b
 	}
-	i := strings.Index(b, "(*World).Serve")
-	if i < 0 {
+	i := strings.Index(b, "<pre>")
+	k := strings.LastIndex(b, "</pre>")
+	if i < 0 || k < i {
 		return b
 	}
-	if j := strings.IndexByte(b[i:], '\n'); j >= 0 {
-		i += j
+	lines := strings.Split(b[i+len("<pre>"):k], "\n")
+	var keep []string
+	for n := 0; n < len(lines); n++ {
+		l := lines[n]
+		if strings.HasPrefix(l, "\t") {
+			continue
+		}
+		if !strings.HasPrefix(l, "/verif/sim/internal/world/") {
+			continue
+		}
+		if n+1 < len(lines) && strings.Contains(lines[n+1], "(*World).Serve") {
+			break
+		}
+		keep = append(keep, l)
+		if n+1 < len(lines) && strings.HasPrefix(lines[n+1], "\t") {
+			keep = append(keep, lines[n+1])
+		}
 	}
-	k := strings.LastIndex(b, "</pre>")
-	if k < i {
-		return b[:i]
-	}
-	return b[:i] + b[k:]
+	return b[:i+len("<pre>")] + strings.Join(keep, "\n") + b[k:]
 }
 
 // normaliseLog keeps the request log's own records (the Logger middleware's Started/Completed
@@ -255,10 +270,18 @@ func normaliseLog(s string) string {
 			continue
 		}
 		for _, f := range strings.Fields(line) {
-			if strings.HasPrefix(f, "duration=") {
+			// keep what identifies the request and its outcome; drop whatever may carry wall-clock
+			// time (durations, timestamps) or other fields a later version of the middleware adds
+			if i := strings.IndexByte(f, '='); i > 0 {
+				switch f[:i] {
+				case "method", "path", "status", "remote":
+					out = append(out, f)
+				}
 				continue
 			}
-			out = append(out, f)
+			if strings.IndexFunc(f, func(r rune) bool { return r >= 'A' && r <= 'Z' || r >= 'a' && r <= 'z' }) >= 0 {
+				out = append(out, f)
+			}
 		}
 	}
 	return strings.Join(out, " ")
